@@ -163,6 +163,7 @@ def observer_catalogue(snap, ctx, rng) -> list:
         {"op": "obs_sample"},
         {"op": "obs_sample", "modulation": True},
         {"op": "obs_sample", "extended": 30000, "nested": True, "all_local": True},
+        {"op": "obs_sample", "nested": True},
         {"op": "obs_duration"},
         {"op": "obs_duration", "fall": True},
         {"op": "obs_props"},
